@@ -542,6 +542,190 @@ func indexHints(lines []string, goal string) []string {
 	return out
 }
 
+// balancedTerm returns the end index (exclusive) of the s-expression starting at s[i].
+func balancedTerm(s string, i int) int {
+	if i >= len(s) {
+		return i
+	}
+	if s[i] != '(' {
+		j := i
+		if s[j] == '|' {
+			j++
+			for j < len(s) && s[j] != '|' {
+				j++
+			}
+			return j + 1
+		}
+		for j < len(s) && s[j] != ' ' && s[j] != ')' {
+			j++
+		}
+		return j
+	}
+	depth := 0
+	inBar := false
+	for j := i; j < len(s); j++ {
+		switch {
+		case s[j] == '|':
+			inBar = !inBar
+		case inBar:
+		case s[j] == '(':
+			depth++
+		case s[j] == ')':
+			depth--
+			if depth == 0 {
+				return j + 1
+			}
+		}
+	}
+	return len(s)
+}
+
+var byteSpecFuns = map[string]int{"sf$le16": 2, "sf$le32": 4, "sf$le64": 8, "sf$be64": 8, "sf$lenprefix": 4}
+
+// byteHints: byte-string spec functions (le16/le32/le64/be64/lenprefix) read a few consecutive cells
+// behind an offset. Hypotheses of the form (forall i. ... (select A i) ...) - frames of appends and
+// copies - are instantiated at those cells for every ground application in the goal and the
+// quantifier-free hypotheses. Sound: instances of hypotheses.
+func byteHints(lines []string, goal string) []string {
+	var cands, rel []string
+	seen := map[string]bool{}
+	scan := func(text string) {
+		for fn, w := range byteSpecFuns {
+			pat := "(" + fn + " "
+			pos := 0
+			for {
+				k := strings.Index(text[pos:], pat)
+				if k < 0 {
+					break
+				}
+				k += pos
+				pos = k + len(pat)
+				a := balancedTerm(text, pos)
+				if a >= len(text) || text[a] != ' ' {
+					continue
+				}
+				o := balancedTerm(text, a+1)
+				off := text[a+1 : o]
+				if strings.Contains(off, "bv$") || strings.Contains(off, "sp$") {
+					continue
+				}
+				for d := 0; d < w; d++ {
+					c := off
+					if d > 0 {
+						c = fmt.Sprintf("(+ %s %d)", off, d)
+					}
+					if !seen[c] {
+						seen[c] = true
+						cands = append(cands, c)
+					}
+				}
+				// offset into a slice: (+ (s.off R) X) - the cells X..X+w-1 relative to the slice
+				if strings.HasPrefix(off, "(+ (s.off ") {
+					r := balancedTerm(off, len("(+ "))
+					if r < len(off) && off[r] == ' ' {
+						x := strings.TrimSuffix(off[r+1:], ")")
+						for d := 0; d < w; d++ {
+							c := x
+							if d > 0 {
+								c = fmt.Sprintf("(+ %s %d)", x, d)
+							}
+							if !seen["rel|"+c] {
+								seen["rel|"+c] = true
+								rel = append(rel, c)
+							}
+						}
+					}
+				}
+			}
+		}
+	}
+	// every ground slice index (+ (s.off R) X) is a relative candidate as well
+	scanIdx := func(text string) {
+		pos := 0
+		for {
+			k := strings.Index(text[pos:], "(+ (s.off ")
+			if k < 0 {
+				return
+			}
+			k += pos
+			pos = k + 3
+			r := balancedTerm(text, k+3)
+			if r >= len(text) || text[r] != ' ' {
+				continue
+			}
+			xe := balancedTerm(text, r+1)
+			if xe >= len(text) || text[xe] != ')' {
+				continue
+			}
+			x := text[r+1 : xe]
+			if strings.Contains(x, "bv$") || strings.Contains(x, "sp$") || strings.Contains(x, "tf$") {
+				continue
+			}
+			if !seen["rel|"+x] {
+				seen["rel|"+x] = true
+				rel = append(rel, x)
+			}
+		}
+	}
+	for _, l := range lines {
+		if !strings.Contains(l, "(forall ") && !strings.HasPrefix(l, "(define-fun") {
+			scan(l)
+		}
+	}
+	scan(goal)
+	if len(cands) == 0 || len(cands) > 48 {
+		return nil
+	}
+	for _, l := range lines {
+		if !strings.Contains(l, "(forall ") && !strings.HasPrefix(l, "(define-fun") {
+			scanIdx(l)
+		}
+	}
+	scanIdx(goal)
+	if len(rel) > 48 {
+		rel = rel[:48]
+	}
+	var out []string
+	for _, l := range lines {
+		if !strings.HasPrefix(l, "(assert ") || !strings.Contains(l, "(forall ((bv$") {
+			continue
+		}
+		pos := 0
+		for len(out) < 400 {
+			s2, e2, nm, so, bd, ok := findForall(l, pos)
+			if !ok {
+				break
+			}
+			pos = e2
+			if so != "Int" || strings.Contains(bd, "(forall ") || strings.Contains(bd, "(exists ") {
+				continue
+			}
+			if strings.Contains(bd, "(+ (s.off ") && strings.Contains(bd, " "+nm+")") {
+				for _, g := range rel {
+					out = append(out, l[:s2]+substVar(bd, nm, g)+l[e2:])
+				}
+			}
+			if !strings.Contains(bd, " "+nm+")") {
+				continue // the variable is not used directly as an index
+			}
+			for _, g := range cands {
+				out = append(out, l[:s2]+substVar(bd, nm, g)+l[e2:])
+			}
+		}
+	}
+	return out
+}
+
+// reOffIdxVar: does the body index a slice as (+ (s.off R) v)?
+func reOffIdxVar(bd, v string) bool {
+	for _, m := range reOffIdx.FindAllStringSubmatch(bd, -1) {
+		if m[2] == v {
+			return true
+		}
+	}
+	return false
+}
+
 func onlyImplicationPrefix(p string) bool {
 	// "(assert (=> A (=> B " : every open paren group before the tail is an implication whose antecedent is closed
 	p = strings.TrimSpace(p)
@@ -680,6 +864,9 @@ func (t *FnTrans) assemble(o *Obligation) string {
 			b.WriteString(h + "\n")
 		}
 		for _, h := range t.objectHints(o) {
+			b.WriteString(h + "\n")
+		}
+		for _, h := range byteHints(t.lines[:o.NLines], o.Goal) {
 			b.WriteString(h + "\n")
 		}
 	}
